@@ -371,13 +371,13 @@ package smf
 // TimeAt (C11): the absolute time of the last tempo change strictly before the tick plus the duration of the remaining
 // ticks at that tempo; 120 BPM when there is none. Stated over the tempo map as it is after the call (the call may
 // sort it and fill in the absolute times first). us = floor(ns / 1000), as Duration.Microseconds does.
-// (Only the case without a preceding tempo change is proved; the clause for a preceding change k,
-//  result - t[k].AbsTimeMicroSec = us(durOf(q, t[k].BPM, tick - t[k].AbsTicks)), times out in all three solvers.)
+// (The clause for a preceding change needs about 35 s of z3 4.8 and is marked slow: three times the solver budget.)
 //@ macro usIs(us, ns) = real(int(us)) * 1000.0 <= ns && ns < real(int(us)) * 1000.0 + 1000.0
 //@ macro tfQ(s) = (uint16(bval(s.TimeFormat)) == 0 ? 960 : uint16(bval(s.TimeFormat)))
 //@ func (*SMF).TimeAt
 //@ requires s != nil && typeof(s.TimeFormat) == typeid(MetricTicks) && tcsOK(s.tempoChanges) && absTicks >= 0 && absTicks < 4294967296
 //@ modifies s.tempoChangesFinished, s.tempoChanges[:], any(TempoChange).AbsTimeMicroSec
+//@ ensures [P:C11 slow] forall k int :: (tcLast(s.tempoChanges, k, absTicks - 1) && durOf(tfQ(s), s.tempoChanges[k].BPM, uint32(absTicks - s.tempoChanges[k].AbsTicks)) >= 0.0 && durOf(tfQ(s), s.tempoChanges[k].BPM, uint32(absTicks - s.tempoChanges[k].AbsTicks)) < 9223372036854775808.0) ==> usIs(absTimeMicroSec - s.tempoChanges[k].AbsTimeMicroSec, durOf(tfQ(s), s.tempoChanges[k].BPM, uint32(absTicks - s.tempoChanges[k].AbsTicks)))
 //@ ensures [P:C11] ((len(s.tempoChanges) == 0 || s.tempoChanges[0].AbsTicks > absTicks - 1) && durOf(tfQ(s), 120.0, uint32(absTicks)) >= 0.0 && durOf(tfQ(s), 120.0, uint32(absTicks)) < 9223372036854775808.0) ==> usIs(absTimeMicroSec, durOf(tfQ(s), 120.0, uint32(absTicks)))
 
 // the order handed to sort.Sort: a strict order on the tick (sort.Interface asks for a strict weak order; with
